@@ -2,8 +2,8 @@
 from reg._common import COMMON_ASSUME
 
 ENTRY = {
-    'lean_files': ['Tables/C03.lean', 'Props/C03.lean', 'Props/C03Pipeline.lean', 'Props/C03Coverage.lean', 'Props/C03Trace.lean'],
-    'lemma_files': ['Model/GeometricTrace.lean', 'Lemmas/Coverage.lean', 'Model/Geometric.lean', 'Model/GeometricInst.lean', 'Model/Helpers.lean', 'Model/Newton.lean', 'Model/Locate.lean', 'Lemmas/Pipeline.lean', 'Lemmas/TangentEnds.lean', 'Lemmas/EvalBary.lean', 'Lemmas/Bridge.lean', 'Lemmas/Shift.lean',
+    'lean_files': ['Tables/C03.lean', 'Props/C03.lean', 'Props/C03Pipeline.lean', 'Props/C03Coverage.lean', 'Props/C03Trace.lean', 'Props/C03Tangent.lean', 'Props/C03BoxLine.lean'],
+    'lemma_files': ['Lemmas/CoverageTangent.lean', 'Lemmas/CoverageBoxLine.lean', 'Lemmas/BoxLine.lean', 'Lemmas/SelfCover.lean', 'Lemmas/Overlap.lean', 'Model/GeometricTrace.lean', 'Lemmas/Coverage.lean', 'Model/Geometric.lean', 'Model/GeometricInst.lean', 'Model/Helpers.lean', 'Model/Newton.lean', 'Model/Locate.lean', 'Lemmas/Pipeline.lean', 'Lemmas/TangentEnds.lean', 'Lemmas/EvalBary.lean', 'Lemmas/Bridge.lean', 'Lemmas/Shift.lean',
                     'Lemmas/VS.lean', 'Model/Curve.lean', 'Model/Basic.lean'],
     'script': 'props/c03.py',
     'rule': 'cases = (ordered pair of planar control nets, route Curve.intersect | all_intersections), geometric strategy; inputs as '
@@ -16,7 +16,7 @@ ENTRY = {
             'domain; distinct by hash of exact nets and route',
     'partial': [
                 'proved (Props/C03, C03Pipeline, C03Coverage; any ordered field): disjoint control-point boxes => no common point and the pipeline model returns the empty set (all four linearisation cases); tangent boxes need end points only unless a coordinate is constant (decided counterexample for the side condition = finding F-E); budgets: rounds exhausted => ValueError, candidate budget => coincident_parameters decides, pruning only above the budget; de-duplication sound and complete with the extracted tolerance, distinct roots at distance d are never merged; subdivision covers: every true intersection covered by a candidate pair is covered by one of its four children, the children are faithful restrictions (C04 subdivision theorems); box_disjoint_sound: a candidate pair covering a true intersection is never rejected by the bbox test',
-                'coverage_invariant_partial: the invariant "every true intersection is covered by a live candidate pair or already accumulated" is proved for rounds in which every pair is exact (curve/curve with non-tangent boxes or line/line with disjoint boxes); NOT proved for the three approximate hand-offs - tangent_bbox_intersection, bbox_line_intersect against the chord instead of the curve, from_linearized (Newton from the chord intersection) - each of which is tied to a listed finding (F-E, F-N) showing that it does lose intersections; hence "no crossing is missed" rests on the oracle runs outside those input classes',
+                'coverage invariant "every true intersection is covered by a live candidate pair or already accumulated": proved for rounds in which every pair is exact (curve/curve with non-tangent boxes, line/line with disjoint boxes) AND for tangent-box pairs (coverage_invariant_tangent_partial) provided neither input curve has a constant coordinate - the side condition is inherited by every sub-curve and is necessary (decided round on the F-E nets loses the crossing); bbox_line_intersect against the chord: a dropped mixed pair can only lose intersections in the delta-collar of the box of the curve piece, delta = distance of the true piece to its chord (hypothesis; for genuine lines the drop is sound), with a decided loss example in exact arithmetic (finding F-N family); NOT proved: from_linearized (Newton from the chord intersection), so "no crossing is missed" rests on the oracle runs there',
                 'exactly-once: proved for the model that a root further than the tolerance from all accumulated ones is appended and one within it is dropped; that Newton started from two different candidate pairs converges to the same root within that tolerance is checked by the oracle only',
     ],
     'trusted_base': [
